@@ -23,5 +23,6 @@ CONSTANTS
   MaxDup = 0
   Engine = "engine"
   GateUsage = FALSE
+  UsageFaults = FALSE
 INIT SimInit
 NEXT SimNext
